@@ -45,7 +45,14 @@ VECTORS = [(0, (0x01, 0xFE, 0xFE, 0xFE)), (1, (0x02, 0xFE, 0xFE, 0xFE)), (28, (0
            (4097152080, (0xFD, 0xFD, 0xFD, 0xFD))]
 
 
+
 def shards(tier, seed):
+    out = _shards(tier, seed)
+    # what runs under -O also runs in an interpreter that turns every warning into an error (-W error)
+    return out + [dict(s, _pyflags=["-W", "error"]) for s in out if s.get("_pyflags") == ["-O"]]
+
+
+def _shards(tier, seed):
     out = []
     full = os.environ.get("VERIF_C07_FULL") == "1" and tier == "thorough"
     if tier == "quick":
